@@ -1,5 +1,6 @@
 """C08 -- attribute values survive print/parse losslessly; parsing never fails (E1)."""
 import itertools
+import os
 
 from gffutils.feature import Feature, feature_from_line
 
@@ -74,6 +75,7 @@ def shards(tier):
         else:
             out.extend(("total", n, (a, b)) for a in range(len(STRUCT)) for b in range(len(STRUCT)))
     out.append(("long",))
+    out.extend(("batch", i) for i in range(len(DIALECTS)))
     return out
 
 
@@ -102,6 +104,15 @@ def body_enc(ch, ctx):
     ctx.nontrivial(any(G.needs_escape(c) or c in ' "+' or ord(c) > 127 for c in v))
     sig = dict(fmt=D["fmt"], kv=D["keyval separator"], quoted=D["quoted GFF2 values"])
     edge_ws = v != v.strip()
+    if place == 0 and not gtf:
+        # the library-wide "do not escape" switch was on for a while (another caller printed the same value then) and is off
+        # again: what is printed from now on must not depend on that episode
+        from gffutils import constants
+        constants.ignore_url_escape_characters = True
+        try:
+            str(Feature(attributes={"ID": [v]}, dialect=D, **COLS))
+        finally:
+            constants.ignore_url_escape_characters = False
     f = Feature(attributes={k: list(x) for k, x in mapping.items()}, dialect=D, extra=list(extras), **COLS)
     text = str(f)
     again = str(f)
@@ -136,6 +147,47 @@ def body_enc(ch, ctx):
               dict(sig, edge_whitespace=edge_ws, unquoted_gtf=gtf and not D["quoted GFF2 values"]),
               mapping=mapping, text=text, got=list(got.items()), sep=D["field separator"],
               trailing=D["trailing semicolon"], repeated=D["repeated keys"])
+
+
+def body_batch(ch, ctx):
+    """Every value of length 1..2 printed under one dialect, all lines in ONE text, read back through the file-level readers
+    (path, gzip path, from_string): the line structure of the text must be exactly the printed lines."""
+    import gzip
+    import gffutils
+    from gv.model import dbutil
+    _, di = ctx.shard
+    D = DIALECTS[di]
+    form = ch.choose("form", ("path", "string", "gz"))
+    gtf = D["fmt"] == "gtf"
+    vals = [a for a in ALPHA] + [a + b for a in ALPHA for b in ALPHA]
+    if gtf:
+        vals = [v for v in vals if not (set(v) & GTF_FORBIDDEN) and (D["quoted GFF2 values"] or v == v.strip())]
+    maps = [{"ID": [v], "k.1-a": ["w%d" % i]} for i, v in enumerate(vals)]
+    lines = [str(Feature(attributes={k: list(x) for k, x in m.items()}, dialect=D, **COLS)) for m in maps]
+    ctx.sample(lambda: dict(dialect={k: D[k] for k in D if k != "order"}, form=form, n_lines=len(lines)))
+    ctx.nontrivial()
+    ctx.outcome(("batch", D["fmt"], D["keyval separator"], form))
+    sig = dict(fmt=D["fmt"], kv=D["keyval separator"], quoted=D["quoted GFF2 values"], form=form, batch=True)
+    if not ctx.check(all("\n" not in t and "\r" not in t for t in lines), "printed-text-not-one-line", sig):
+        return
+    text = "\n".join(lines) + "\n"
+    wd = ctx.fresh_dir()
+    if form == "path":
+        it = gffutils.DataIterator(dbutil.write_text(wd, "b.gff", text), dialect=D)
+    elif form == "gz":
+        p = os.path.join(wd, "b.gff.gz")
+        with gzip.open(p, "wb") as fh:
+            fh.write(text.encode("utf-8"))
+        it = gffutils.DataIterator(p, dialect=D)
+    else:
+        it = gffutils.DataIterator(text, from_string=True, dialect=D)
+    got = [list(G.as_plain(f.attributes).items()) for f in it]
+    exp = [[(k, list(x)) for k, x in m.items()] for m in maps]
+    if not ctx.check(len(got) == len(exp), "file-reader-splits-the-text-differently", sig, n_lines=len(exp), n_features=len(got)):
+        return
+    bad = [(vals[i], got[i]) for i in range(len(exp)) if got[i] != exp[i]]
+    ctx.check(not bad, "mapping-changed", dict(sig, edge_whitespace=False, unquoted_gtf=gtf and not D["quoted GFF2 values"]),
+              n_bad=len(bad), first=[(repr(a), b) for a, b in bad[:3]])
 
 
 def body_total(ch, ctx):
@@ -204,5 +256,7 @@ def body(ch, ctx):
         body_enc(ch, ctx)
     elif ctx.shard[0] == "long":
         body_long(ch, ctx)
+    elif ctx.shard[0] == "batch":
+        body_batch(ch, ctx)
     else:
         body_total(ch, ctx)
